@@ -39,8 +39,8 @@ META = {
                   "compiles/renders — sampled schedules only, no claim for all interleavings.",
 }
 
-QUICK_HISTORIES = 10_000
-THOROUGH_CHUNKS = 10
+QUICK_HISTORIES = 8_000
+THOROUGH_CHUNKS = 12
 
 FAIL_RE = re.compile(r"FAIL([a-z-]+)\{([^}]*)\}")
 
@@ -50,7 +50,7 @@ def first_failure(oracle_steps):
         if s != "=":
             m = FAIL_RE.findall(s)
             # the most specific predicate first
-            order = {"failed-insert": 0, "isolation": 1, "sticky": 2, "repeat": 3, "threads": 4, "fresh": 5}
+            order = {"failed-insert": 0, "isolation": 1, "handle": 2, "sticky": 3, "repeat": 4, "threads": 5, "fresh": 6}
             m.sort(key=lambda x: order.get(x[0], 9))
             return i, (m[0] if m else ("unparsed", s))
     return None
@@ -60,9 +60,10 @@ def shrink(r, exe, toks, site):
     """greedy one-op-at-a-time removal while the same predicate still fails"""
     def fails(ts):
         rc, out, err = r.harness(exe, ["one", " ".join(ts), "--once"])
-        if rc != 0 or not out.strip():
+        body = [l for l in out.splitlines() if not l.startswith("#")]
+        if rc != 0 or not body:
             return None
-        f = out.splitlines()[0].split("\t")
+        f = body[0].split("\t")
         ff = first_failure(f[2].split(" / "))
         if ff and ff[1][0] == site:
             return f[0].split(" ")[: ff[0] + 1]
@@ -87,12 +88,54 @@ def shrink(r, exe, toks, site):
 
 def strip_logs(tok):
     f = tok.split(":")
-    return ":".join(f[:4]) if f[0] == "r" else tok
+    return ":".join(f[:4]) if f[0] == "r" else (":".join(f[:3]) if f[0] == "hd" else tok)
+
+
+TBL = {}
+
+
+def read_headers(r, lines):
+    """`#tbl name source ltcfg H` (fingerprints of the real compiler's output) and `#cmp` lines"""
+    cmp_lines, cases = [], []
+    for l in lines:
+        if l.startswith("#tbl "):
+            _, n, k, cfg, h = l.split(" ")
+            TBL[(n, k, cfg)] = h
+        elif l.startswith("#cmp-inconsistent"):
+            r.broken.append("compile success of a source depends on more than the syntax: " + l)
+        elif l.startswith("#cmp "):
+            cmp_lines.append(l)
+        elif l.startswith("#"):
+            pass
+        else:
+            cases.append(l)
+    return cmp_lines, cases
+
+
+GET_RE = re.compile(r"(\d)=s(\d+)@(\d{5})")
+LIST_RE = re.compile(r"(\d):(\d+)@(\d{5})")
+
+
+def fp(n, k, cfg):
+    return TBL.get((n, k, cfg), "uncompilable")
+
+
+def translate_step(step, tok):
+    """model step -> the engine's notation: (source, load-time cfg) becomes the fingerprint of the real
+    compilation of that source under that configuration and name"""
+    parts = step.split("|")
+    f = tok.split(":")
+    if f[0] in ("r", "hd") and len(f) > 2:
+        parts[0] = re.sub(r"s(\d+)@(\d{5})", lambda m: f"s{m[1]}#{fp(f[2], m[1], m[2])}", parts[0])
+    for i in range(1, len(parts)):
+        p = GET_RE.sub(lambda m: f"{m[1]}=s{m[2]}#{fp(m[1], m[2], m[3])}", parts[i])
+        parts[i] = LIST_RE.sub(lambda m: f"{m[1]}:{m[2]}#{fp(m[1], m[2], m[3])}", p)
+    return "|".join(parts)
 
 
 def process(r, exe, out, shrunk_sites):
-    lines = out.splitlines()
-    model = r.driver("drive_c15", out)
+    cmp_lines, lines = read_headers(r, out.splitlines())
+    model = r.driver("drive_c15", "\n".join(cmp_lines + lines) + "\n")
     if model is None or len(model) != len(lines):
         r.broken.append("model driver output does not line up with the harness histories")
         model = None
@@ -106,24 +149,51 @@ def process(r, exe, out, shrunk_sites):
         isteps = impl.split(" / ")
         osteps = orc.split(" / ")
         kinds = [t.split(":")[0] for t in toks]
-        nontrivial = any(k in ("ab", "ao", "sl") for k in kinds) and any(k in ("r", "th") for k in kinds)
+        nontrivial = any(k in ("ab", "ao", "sl") for k in kinds) and any(k in ("r", "th", "hd") for k in kinds)
         r.count(case, nontrivial, n=len(toks))
         r.extra["histories"] = r.extra.get("histories", 0) + 1
         for k in kinds:
             r.hist["op"][k] += 1
         r.hist["history_length"][str(len(toks) // 5 * 5) + "+"] += 1
+        last = {}
+        cfg_changed = {}
         for t, st, note in zip(toks, isteps, notes.split(" ")):
-            k = t.split(":")[0]
+            tf = t.split(":")
+            k = tf[0]
             res = st.split("|")[0]
             if k in ("ab", "ao"):
                 r.hist["add_result"]["ok" if res == "ok" else "compile-error"] += 1
-            if k == "r":
+                key = (tf[1], tf[2])
+                if res == "ok" and last.get(key) == tf[3]:
+                    r.hist["readd_identical_source"]["after config change" if cfg_changed.get(key) else "same config"] += 1
+                if res == "ok":
+                    last[key] = tf[3]
+                    cfg_changed[key] = False
+            elif k == "rm":
+                last.pop((tf[1], tf[2]), None)
+            elif k == "cl":
+                for key in [x for x in last if x[0] == tf[1]]:
+                    last.pop(key)
+            elif k == "cn" and res == "ok":
+                new = str(st.count("|") - 1)
+                for key in [x for x in last if x[0] == tf[1]]:
+                    last[(new, key[1])] = last[key]
+                    cfg_changed[(new, key[1])] = cfg_changed.get(key, False)
+            elif k == "lt":
+                r.hist["load_time_setting"][["trim_blocks", "lstrip_blocks", "keep_trailing_newline", "syntax", "auto_escape_callback"][int(tf[2])]] += 1
+                for key in last:
+                    if key[0] == tf[1]:
+                        cfg_changed[key] = True
+            elif k == "ru":
+                r.hist["run_time_setting"][["undefined_behavior", "formatter", "debug", "recursion_limit", "fuel", "path_join_callback", "unknown_method_callback"][int(tf[2])]] += 1
+            if k in ("r", "hd"):
                 cat = ("get:" + ("found" if res.startswith("s") else res))
                 r.hist["render_lookup"][cat] += 1
-                r.hist["render_outcome"][note] += 1
+                if k == "r":
+                    r.hist["render_outcome"][note] += 1
             r.hist["live_envs"][str(st.count("|"))] += 1
         if model is not None:
-            msteps = model[li].split("\t")[1].split(" / ")
+            msteps = [translate_step(m, t) for m, t in zip(model[li].split("\t")[1].split(" / "), toks)]
             if msteps != isteps:
                 for i, (a, b) in enumerate(zip(isteps, msteps)):
                     if a != b:
@@ -220,7 +290,7 @@ def run(r):
         if rc != 0:
             r.broken.append(f"harness c15 exited {rc} on corpus {path}: {err[-300:]}")
             continue
-        r.extra["corpus_histories"] = r.extra.get("corpus_histories", 0) + len(out.splitlines())
+        r.extra["corpus_histories"] = r.extra.get("corpus_histories", 0) + sum(1 for l in out.splitlines() if not l.startswith("#"))
         process(r, exe, out, shrunk)
     rc, out, err = r.harness(exe, ["foreign", "3" if r.tier == "quick" else "20"])
     if rc != 0:
@@ -238,8 +308,9 @@ def run(r):
         if rc != 0:
             r.broken.append(f"harness c15 exited {rc}: {err[-300:]}")
             return
-        if len(out.splitlines()) != count:
-            r.broken.append(f"harness c15 produced {len(out.splitlines())} histories instead of {count}")
+        got = sum(1 for l in out.splitlines() if not l.startswith("#"))
+        if got != count:
+            r.broken.append(f"harness c15 produced {got} histories instead of {count}")
         process(r, exe, out, shrunk)
 
 
@@ -264,12 +335,14 @@ def replay(r, path):
             print("   oracle:", f[2])
             continue
         rc, out, err = r.harness(exe, ["one", case, "--once"])
-        model = r.driver("drive_c15", out)
-        f = out.rstrip("\n").split("\t")
+        cmp_lines, body = read_headers(r, out.splitlines())
+        model = r.driver("drive_c15", "\n".join(cmp_lines + body) + "\n")
+        f = body[0].split("\t")
+        toks = f[0].split(" ")
         print("history:", f[0])
         for i, (a, o) in enumerate(zip(f[1].split(" / "), f[2].split(" / "))):
-            m = model[0].split("\t")[1].split(" / ")[i] if model else None
-            print(f" step {i} {f[0].split(' ')[i]}")
+            m = translate_step(model[0].split("\t")[1].split(" / ")[i], toks[i]) if model else None
+            print(f" step {i} {toks[i]}")
             print("   engine:", a)
             print("   model :", m)
             print("   oracle:", o)
